@@ -64,6 +64,13 @@ Theorem C20_class_and_kind : forall Df typed fuel s (t : gt),
 Proof. intros. repeat split. Qed.
 Print Assumptions C20_class_and_kind.
 
+(* the class only decides the kind: Tree and TypedTree get the same nodes from the same
+   definition and stream *)
+Theorem C20_class_independent : forall Df fuel s,
+  snd (build_random_tree Df true fuel s) = snd (build_random_tree Df false fuel s).
+Proof. reflexivity. Qed.
+Print Assumptions C20_class_independent.
+
 (* ------------------------------------------------------------------------ *)
 (* EVERY node at any depth: type allowed by the relations of its parent's type,
    dict = merged spec of that relation at the node's own index path, children
